@@ -63,10 +63,11 @@ fn main() -> anyhow::Result<()> {
 
         let vertices = args.vertices.unwrap();
 
+        // the complete graph on zero vertices has no edges (`0 - 1` must not underflow)
         let edges = if args.undirected {
-            (vertices * (vertices - 1)) / 2
+            (vertices * vertices.saturating_sub(1)) / 2
         } else {
-            vertices * (vertices - 1)
+            vertices * vertices.saturating_sub(1)
         };
 
         generate_graph(vertices, edges, args.undirected)?
